@@ -198,6 +198,12 @@ class CursorDiffs(object):
                         D = self.forget_counter(D, ik)
                         D[(ik, 'Z')] = cst
                         D[('Z', ik)] = -cst
+                        # exact distances to the other counters whose value is known exactly
+                        for jk in {a for (a, b) in D if isinstance(a, str) and a.startswith('iv:') and a != ik}:
+                            lo, hin = self.get(D, jk, 'Z'), self.get(D, 'Z', jk)
+                            if lo > NEG and hin > NEG and lo == -hin:
+                                D[(ik, jk)] = cst - lo
+                                D[(jk, ik)] = lo - cst
                     elif op_ in ('+=', '-=') and cst is not None:
                         tag = 'sh:%s:' % ik
                         D = {(a, b): v for (a, b), v in D.items() if not (isinstance(a, str) and a.startswith(tag)) and not (isinstance(b, str) and b.startswith(tag))}
